@@ -168,6 +168,13 @@ def c29_runs(tier):
     if q:
         for st, kind, thr, at in (('ppp', -1, 1, 1), ('p2p', 0, 2, 1), ('u2u', -1, 1, 0)):
             add(1, st, 3, 1, thr=thr, at=at, f1=kind)
+    # ---- three stages, one worker, two deviations: the caller inside a limited stage's wait() (holding a dequeued item,
+    # spinning for a slot) while a downstream stage throws, and an upstream task enqueueing after that wait() gave up
+    add(1, 'ppp', 3, 2, thr=2, at=0, again=0, budget=120)
+    if not q:
+        for st, kind in (('ppp', -1), ('p2p', 0)):
+            for thr in (1, 2):
+                add(1, st, 3, 2, thr=thr, at=-2, f1=kind, again=0, budget=400)
     # ---- concurrent throwers: the stage throws for every item from `at` on / two different stages throw
     for st in (['22'] if q else ['22', 'u2', 'uu', '2u']):
         add(1, st, 3, 1, thr=1, at=0, all=1)
@@ -211,7 +218,7 @@ reg('C29', level='model_checking', runs=c29_runs, quick_budget_s=300, thorough_b
                '{plain function, 2, unlimited} (5 (quick) / all 9 limit pairs for 2 stages; 4 / 8 three-stage shapes with value and OpResult '
                'transforms; one 4-stage and the single-stage shape) x pools of 0, 1 and 2 threads, plus a stage that throws for every item (concurrent '
                'throwers) and two different throwing stages. Pool 1: every interleaving with <=1 deviation of all 2-stage configurations (quick: 3-stage '
-               'shapes at bound 0 plus three at bound 1; thorough: all 3-stage configurations at bound 1 and <=2 deviations on three 2-stage ones); '
+               'shapes at bound 0 plus three at bound 1; thorough: all 3-stage configurations at bound 1 and <=2 deviations on three 2-stage ones; <=2 deviations on ppp with a throwing sink (quick) / on ppp and p2p with a throwing transform or sink at every item (thorough)); '
                'pool 2: bound 0 (all free switches) everywhere and <=1 deviation on one (quick) / nine (thorough) configurations; pool 0: the single '
                'schedule. Oracle: pipeline() throws iff a stage threw, the tag is one that was thrown and was not thrown after another exception was '
                'already captured (= the first captured one); no (item, stage) counter exceeds 1; at most one first-stage call per generator instance '
